@@ -39,7 +39,12 @@ def make_event(rnd, letter, port, seq):
         if rnd.random() < .5: x[74:76] = b"\xee\xee"
         else: x[75] ^= 1 << rnd.randrange(8); x[74:76] = bytes(x[74:76]) if bytes(x[74:76]) not in c06.known_codes() else b"\xee\x01"
         return bytes(x), None
-    if letter == "badname": x[42] = 0xff; return bytes(x), None
+    if letter == "badname":
+        # a name field that is not UTF-8: a stray byte in front, or the 32 bytes end in the middle of a character (a long name cut by the field width)
+        if rnd.random() < .5: x[42] = 0xff
+        else:
+            tail = rnd.choice([b"\xd7", b"\xe2\x82", b"\xf0\x9f\x98"]); x[42:74] = b"n" * (32 - len(tail)) + tail
+        return bytes(x), None
     if letter == "oddfield":
         # a broadcast of a known family with a byte outside its table in one enumerated field (mode, fan level, direction, state): whether
         # it is a device (with a default) or an error inside the handler is the decoder's reading (model = Spec of C07's `delivered`)
@@ -193,6 +198,25 @@ def run_during_start(out, rnd, trials):
                      nontrivial=lambda c: c["sent_while_starting"] > 0, sample=lambda c: c, classify=lambda c, i: "during-start/%d" % min(c["sent_while_starting"], 3))
 
 
+def run_with_a_port_taken(out, rnd, n):
+    """another program holds one of the configured ports when the bridge is started.  Either start() refuses (the rule, C17's subject) and there
+    is nothing to deliver, or the bridge runs - and then every valid broadcast on the ports it was configured with and could have is delivered"""
+    cases = []; io = []
+    async def go():
+        for _ in range(n):
+            np_ = rnd.randrange(2, 5); k = rnd.randrange(np_); seq = []; exp = {p: [] for p in range(np_)}
+            for j in range(8):
+                p = rnd.choice([q for q in range(np_) if q != k]); d, e = make_event(rnd, rnd.choice(list(FAMILY)), p, j + 1); seq.append((p, d)); exp[p].append(e)
+            log, nh, nw, complete = await world.feed_bridge(np_, seq, (), c05.show, c06.sentinel, occupy=k)
+            cases.append({"ports": np_, "taken": k})
+            if log is None: io.append("consistent"); continue
+            got = per_port_view(np_, [(port_of(s_), s_) for s_ in log]); want = per_port_view(np_, [(p, e) for p in exp for e in exp[p]])
+            io.append("consistent" if got == want else "started although port %d of %d was taken, and delivered %s where %s was broadcast to its other ports" % (k, np_, got[:200], want[:200]))
+    asyncio.run(go())
+    lib.differential(out, "a-configured-port-held-by-another-program-at-start", cases, io, None, ["consistent"] * len(cases),
+                     lambda c: "%d ports, port index %d held by a foreign socket when start() is called" % (c["ports"], c["taken"]), sample=lambda c: c)
+
+
 def run_unreferenced(out, rnd, trials):
     """the application keeps no reference: the bridge is created and started inside a helper, its callback is a bound method of an
     object nobody else holds, a garbage collection runs - and the broadcasts still arrive (the event loop owns the sockets)"""
@@ -258,6 +282,7 @@ def run(tier, rnd, out):
     else: out.notes.append("the library's default ports were not available on this machine for a minute: stream on-the-library's-default-ports not run")
     run_during_start(out, rnd, 6 if tier == "quick" else 60)
     run_unreferenced(out, rnd, 8 if tier == "quick" else 40)
+    run_with_a_port_taken(out, rnd, 10 if tier == "quick" else 100)
     run_repeats(out, "repeated-datagrams-one-at-a-time", [mk_repeats(rnd, rnd.randrange(1, 4), rnd.randrange(2, 12)) for _ in range(60 if tier == "quick" else 600)])
     out.exhaustive = tier == "thorough"
 
